@@ -462,3 +462,5 @@ import s2_found as found
 found.register(globals(), {"C07", "C02", "C03", "C09"}, ["inner_join_failure"])
 
 found.register(globals(), {"C07", "C02", "C03", "C09"}, ["map_selector_failure"])
+
+found.register(globals(), {"C07", "C02", "C03", "C09"}, ["oversize_result_handled"])
